@@ -217,6 +217,9 @@ def _enum_values(cls):
     return c
 
 
+_DEFAULT_MISSING = enum.Enum.__dict__['_missing_'].__func__
+
+
 def sym_enum_call(cls, value, *a, **kw):
     if isinstance(value, SymInt) and not a and not kw:
         if issubclass(cls, enum.Flag):
@@ -241,6 +244,15 @@ def sym_enum_call(cls, value, *a, **kw):
         i = eng().choose(conds)
         if i < len(members):
             return members[i]
+        missing = getattr(cls, '_missing_', None)
+        if missing is not None and getattr(missing, '__func__', missing) is not _DEFAULT_MISSING:
+            # the class has its own _missing_ hook: it runs (on the symbolic value, under 'no member has this value')
+            # with the outcomes Enum.__new__ gives it
+            r = missing(value)
+            if isinstance(r, cls):
+                return r
+            if r is not None:
+                raise TypeError('error in %s._missing_: returned %r instead of None or a valid member' % (cls.__name__, r))
         raise OutOfDomain('%s is not a valid %s' % ('<symbolic>', cls.__qualname__))
     return _real['enum_call'](cls, value, *a, **kw)
 
